@@ -234,6 +234,14 @@ def corpus():
          'pairs': [P('A', 4, {'k': 'text', 's': '>1'}), P('B', 4, {'k': 'text', 's': 'apple'})]},
         {'fn': 'AVERAGEIFS', 'formula': '=AVERAGEIFS(E1:E4,A1:A4,"<=6")', 'cells': enc, 'target': ['E', 0, 4], 'pairs': [P('A', 4, {'k': 'text', 's': '<=6'})]},
     ]
+    # texts that CONTAIN a number but are no dates (K10 / L10, lot 5 / bin 5): a criterion equal to one of them selects that text only
+    cells2 = {'B1': 'K10', 'B2': 'L10', 'B3': 'R7', 'B4': 'L7', 'B5': 'lot 5', 'B6': 'bin 5', 'E1': 10, 'E2': 20, 'E3': 30, 'E4': 40, 'E5': 50, 'E6': 60}
+    enc2 = {a: C.jenc(v) for a, v in cells2.items()}
+    for w in ('K10', 'L7', 'lot 5', 'bin 5', '<>L10', '<>lot 5'):
+        k = {'k': 'text', 's': w}
+        rs += [{'fn': 'COUNTIFS', 'formula': '=COUNTIFS(B1:B6,"%s")' % w, 'cells': enc2, 'target': [None, 0, 0], 'pairs': [P('B', 6, k)]},
+               {'fn': 'SUMIF', 'formula': '=SUMIF(B1:B6,"%s",E1:E6)' % w, 'cells': enc2, 'target': ['E', 0, 6], 'pairs': [P('B', 6, k)]},
+               {'fn': 'AVERAGEIFS', 'formula': '=AVERAGEIFS(E1:E6,B1:B6,"%s")' % w, 'cells': enc2, 'target': ['E', 0, 6], 'pairs': [P('B', 6, k)]}]
     rs += [x['witness'] for x in C.known_findings()['findings'] if x['property'] == 'C12']
     return rs
 
